@@ -288,9 +288,14 @@ func TestManyParams(t *testing.T) {
 		body = append(body, "["+strings.Join(params, ", ")+"]")
 		def := "func many(" + strings.Join(params, ", ") + ") {\n" + strings.Join(body, "\n") + "\n}"
 		c := Case{Inputs: []string{def}}
+		allInts := rapid.Bool().Draw(rt_, "allints") // every parameter then wants a register (there are 8 per environment)
 		for k := 0; k < 3; k++ {
 			var args []string
 			for i := 0; i < np; i++ {
+				if allInts {
+					args = append(args, rapid.SampledFrom([]string{"1", "2", "0", "-1", "7", "9223372036854775807"}).Draw(rt_, "intarg"))
+					continue
+				}
 				args = append(args, rapid.SampledFrom([]string{"1", "2", "0", "-1", "1.5", `"a"`, "[1]", "nil", "true", "9223372036854775807"}).Draw(rt_, "arg"))
 			}
 			c.Inputs = append(c.Inputs, "println(many("+strings.Join(args, ", ")+"))")
